@@ -242,14 +242,15 @@ class Seq:
     """An immutable sequence value: kind in {'list','nd','tuple'}, length n (python int or z3 Int), and either
     ``items`` (tuple of values; only with python-int n) or ``fn`` (python callable: index term -> scalar value).
     ``et`` is the element type tag: 'real' | 'int' | 'bool' | 'any'."""
-    __slots__ = ("kind", "n", "items", "fn", "et")
+    __slots__ = ("kind", "n", "items", "fn", "et", "uf")
 
-    def __init__(self, kind, n, items=None, fn=None, et="real"):
+    def __init__(self, kind, n, items=None, fn=None, et="real", uf=None):
         self.kind = kind
         self.n = n
         self.items = tuple(items) if items is not None else None
         self.fn = fn
         self.et = et
+        self.uf = uf          # set when the elements are exactly uf(j) for an uninterpreted function symbol
         if self.items is not None:
             assert isinstance(n, int) and n == len(self.items)
 
@@ -274,7 +275,7 @@ class Seq:
         return self.fn(i)
 
     def with_kind(self, kind):
-        return Seq(kind, self.n, self.items, self.fn, self.et)
+        return Seq(kind, self.n, self.items, self.fn, self.et, self.uf)
 
     def __repr__(self):
         if self.items is not None:
@@ -338,6 +339,16 @@ def ite(c, a, b):
         return tuple(ite(c, x, y) for x, y in zip(a, b))
     ta, tb = _scalar_sort(a), _scalar_sort(b)
     if ta is None or tb is None:
+        import enum as _enum
+        ok = lambda v: isinstance(v, (_enum.Enum, str, type(None), Phi))
+        if ok(a) and ok(b):
+            alts = []
+            for v, g in ((a, c), (b, z3.Not(c))):
+                if isinstance(v, Phi):
+                    alts.extend((z3.And(g, g2), v2) for g2, v2 in v.alts)
+                else:
+                    alts.append((g, v))
+            return Phi(alts)
         raise Unmergeable(f"cannot merge {a!r} and {b!r}")
     if ta == "bool" and tb == "bool":
         return z3.If(c, as_bool_term(a), as_bool_term(b))
@@ -350,6 +361,18 @@ def ite(c, a, b):
 
 class Unmergeable(Exception):
     pass
+
+
+class Phi:
+    """a path-dependent concrete (non-numeric) value, e.g. an enum assigned on one branch only.  It can be stored and
+    merged again, but any *use* is unsupported (the function would then have to be split per case)."""
+    __slots__ = ("alts",)
+
+    def __init__(self, alts):
+        self.alts = alts      # list of (guard, value)
+
+    def __repr__(self):
+        return f"Phi({[v for _, v in self.alts]!r})"
 
 
 def _scalar_sort(x):
